@@ -24,8 +24,8 @@ func gen(tier string, r *lib.Rand, emit func(string)) {
 	for n := toklen + 1; n <= smalllen; n++ {
 		acclib.SequencesOver(acclib.SmallTokens, n, func(src string) { emit("load " + hex(src)) })
 	}
-	for i := 0; i < nrand; i++ {
-		emit("load " + hex(acclib.RandomTokenSequence(r, toklen+1+r.Intn(3))))
+	for i := 0; i < 8*nrand; i++ {
+		emit("load " + hex(acclib.RandomTokenSequence(r, toklen+1+r.Intn(4))))
 	}
 	// (b) generated scripts: the text is rendered from a known tree
 	var srcs []string
